@@ -735,3 +735,143 @@ class StateWrites:
     def param_writes(self, f: Func):
         """Direct writes through the function's own State parameters: [(node, param, how)]."""
         return [(n, p[6:], how) for n, recv, p, how in self._direct.get(f.key, []) if p.startswith("param:")]
+
+
+# ------------------------------------------------------------ shared mutable defaults
+MUTATORS = {"update", "append", "extend", "insert", "pop", "popitem", "setdefault", "clear", "remove", "add", "discard", "sort", "reverse", "__setitem__", "__delitem__",
+            "appendleft", "popleft", "difference_update", "intersection_update", "symmetric_difference_update"}
+FRESH_CALLS = {"dict", "list", "set", "tuple", "frozenset", "sorted", "deepcopy", "copy.deepcopy", "copy.copy", "OrderedDict", "defaultdict"}
+
+
+def _is_mutable_literal(v: Optional[ast.AST]) -> bool:
+    if isinstance(v, (ast.Dict, ast.List, ast.Set, ast.DictComp, ast.ListComp, ast.SetComp)):
+        return True
+    if isinstance(v, ast.Call) and U(v.func) in ("dict", "list", "set", "defaultdict", "OrderedDict", "collections.defaultdict", "collections.OrderedDict") :
+        return True
+    return False
+
+
+class SharedDefaults:
+    """Class-level / module-level mutable containers (and mutable default arguments) are shared by every instance and every call:
+    writing through them carries information from one call to the next.  Finds every write through such an object, also through
+    aliases (locals, and instance attributes bound to it anywhere in the class hierarchy)."""
+
+    def __init__(self, ix: Index):
+        self.ix = ix
+        self.class_level: Dict[ClassKey, Dict[str, ast.AST]] = {}
+        self.module_level: Dict[str, Dict[str, ast.AST]] = {}
+        for mname, m in ix.mods.items():
+            d = {}
+            for st in m.tree.body:
+                tg, v = self._simple_assign(st)
+                if tg and _is_mutable_literal(v) and tg != "__all__":
+                    d[tg] = st
+            self.module_level[mname] = d
+        for ck, c in ix.classes.items():
+            d = {}
+            for st in getattr(c, "node", c).body:
+                tg, v = self._simple_assign(st)
+                if tg and _is_mutable_literal(v) and not tg.startswith("__"):
+                    d[tg] = st
+            self.class_level[ck] = d
+        # instance attributes aliasing a shared container: (class key, attr) -> description
+        self.attr_alias: Dict[Tuple[ClassKey, str], str] = {}
+        for _ in range(2):
+            for f in ix.iter_funcs():
+                if f.cls is None:
+                    continue
+                for st in ast.walk(f.node):
+                    if isinstance(st, ast.Assign):
+                        for t in st.targets:
+                            if isinstance(t, ast.Attribute) and isinstance(t.value, ast.Name) and t.value.id == "self":
+                                why = self.shared(st.value, f, {})
+                                if why:
+                                    self.attr_alias[(f.cls, t.attr)] = why
+
+    @staticmethod
+    def _simple_assign(st):
+        if isinstance(st, ast.Assign) and len(st.targets) == 1 and isinstance(st.targets[0], ast.Name):
+            return st.targets[0].id, st.value
+        if isinstance(st, ast.AnnAssign) and isinstance(st.target, ast.Name) and st.value is not None:
+            return st.target.id, st.value
+        return None, None
+
+    def _class_const(self, cls: Optional[ClassKey], name: str) -> Optional[str]:
+        if cls is None:
+            return None
+        for k in self.ix.mro(cls):
+            if name in self.class_level.get(k, {}):
+                return f"class-level container {k[1]}.{name}"
+        return None
+
+    def _attr_alias(self, cls: Optional[ClassKey], name: str) -> Optional[str]:
+        if cls is None:
+            return None
+        fam = set(self.ix.mro(cls)) | {k for k in self.ix.classes if cls in self.ix.mro(k)}
+        for k in fam:
+            if (k, name) in self.attr_alias:
+                return f"self.{name} (bound to {self.attr_alias[(k, name)]})"
+        return None
+
+    def shared(self, e: ast.AST, f: Func, local_alias: Dict[str, str]) -> Optional[str]:
+        """Why `e` may denote a shared container (None if it does not)."""
+        if isinstance(e, ast.Name):
+            if e.id in local_alias:
+                return local_alias[e.id]
+            if e.id in self.module_level.get(f.mod, {}) and e.id not in _param_names(f) and not _is_local(f, e.id):
+                return f"module-level container {e.id}"
+            imp = self.ix.mods[f.mod].imports.get(e.id) if hasattr(self.ix.mods[f.mod], "imports") else None
+            if isinstance(imp, tuple) and len(imp) == 2 and imp[1] in self.module_level.get(imp[0], {}) and not _is_local(f, e.id):
+                return f"module-level container {imp[0]}.{imp[1]}"
+            return None
+        if isinstance(e, ast.Attribute):
+            b = e.value
+            if isinstance(b, ast.Name) and b.id in ("self", "cls"):
+                return self._class_const(f.cls, e.attr) or (self._attr_alias(f.cls, e.attr) if b.id == "self" else None)
+            if isinstance(b, ast.Call) and U(b.func) == "type":
+                return self._class_const(f.cls, e.attr)
+            if isinstance(b, ast.Attribute) and b.attr == "__class__":
+                return self._class_const(f.cls, e.attr)
+            k = self.ix.resolve_class(f.mod, b)
+            if k is not None:
+                return self._class_const(k, e.attr)
+            return None
+        if isinstance(e, ast.Subscript):
+            return self.shared(e.value, f, local_alias)  # a nested container of a shared container is shared too
+        if isinstance(e, ast.IfExp):
+            return self.shared(e.body, f, local_alias) or self.shared(e.orelse, f, local_alias)
+        if isinstance(e, ast.Call) and isinstance(e.func, ast.Attribute) and e.func.attr in ("get", "setdefault") and e.args:
+            return self.shared(e.func.value, f, local_alias)
+        return None
+
+    def writes(self, f: Func) -> List[Tuple[ast.AST, str]]:
+        alias: Dict[str, str] = {}
+        a = f.node.args
+        defaults = list(zip((a.posonlyargs + a.args)[-len(a.defaults):] if a.defaults else [], a.defaults)) + [(p, d) for p, d in zip(a.kwonlyargs, a.kw_defaults) if d is not None]
+        for p, d in defaults:
+            if _is_mutable_literal(d):
+                alias[p.arg] = f"mutable default argument `{p.arg}={U(d)}`"
+        for _ in range(3):
+            for st in ast.walk(f.node):
+                if isinstance(st, ast.Assign) and len(st.targets) == 1 and isinstance(st.targets[0], ast.Name):
+                    why = self.shared(st.value, f, alias)
+                    if why:
+                        alias[st.targets[0].id] = why
+        out = []
+        for n in ast.walk(f.node):
+            if isinstance(n, ast.Call) and isinstance(n.func, ast.Attribute) and n.func.attr in MUTATORS:
+                why = self.shared(n.func.value, f, alias)
+                if why:
+                    out.append((n, f"`{U(n)[:60]}` writes through {why}"))
+            elif isinstance(n, (ast.Assign, ast.AugAssign, ast.Delete)):
+                tgs = n.targets if isinstance(n, (ast.Assign, ast.Delete)) else [n.target]
+                for t in tgs:
+                    if isinstance(t, ast.Subscript):
+                        why = self.shared(t.value, f, alias)
+                        if why:
+                            out.append((n, f"`{U(n)[:60]}` writes through {why}"))
+                    elif isinstance(n, ast.AugAssign) and isinstance(t, (ast.Name, ast.Attribute)):
+                        why = self.shared(t, f, alias)
+                        if why:
+                            out.append((n, f"`{U(n)[:60]}` updates in place {why}"))
+        return out
